@@ -35,6 +35,7 @@ def gen_case(D):
                       'break_on': D.choice([None, None, True, False]),
                       'continue_on': D.choice([None, None, None, True,
                                                False])}
+        c['defaults_too'] = D.bool(0.3)
     if D.bool(0.25):
         c['wait_before'] = D.int(0, 5)
     if D.bool(0.25):
@@ -126,6 +127,10 @@ def render(case):
         wf['tasks'] = {'p': {'action': 'std.noop'}}
     else:
         p.update(pol)
+        if case.get('defaults_too') and case['retry']:
+            # the task's own retry (whatever its count, 0 included) wins
+            # over a retry given in task-defaults
+            wf['task-defaults'] = {'retry': {'count': 3, 'delay': 0}}
     return yaml.safe_dump({'version': '2.0', 'wf': wf},
                           default_flow_style=False, sort_keys=False), inp
 
